@@ -228,6 +228,96 @@ type WithFolder struct {
 	TS   []Celsius
 }
 
+// Packed* structs consist of equally sized fields without any padding and end
+// exactly where the sentinel block begins: a field written with a wider store
+// clobbers its neighbour, the last one clobbers the sentinel.
+type PackedU8 struct{ A, B, C, D, E, F, G, H uint8 }
+type PackedI8 struct{ A, B, C, D, E, F, G, H int8 }
+type PackedBool struct{ A, B, C, D, E, F, G, H bool }
+type PackedU16 struct{ A, B, C, D uint16 }
+type PackedI16 struct{ A, B, C, D int16 }
+type PackedU32 struct{ A, B uint32 }
+type PackedI32 struct{ A, B int32 }
+type PackedF32 struct{ A, B float32 }
+type PackedMix struct {
+	A uint16
+	B uint16
+	C uint8
+	D int8
+	E uint16
+	F uint32
+	G int16
+	H uint16
+}
+
+// Tree is a self-referential type that is only ever unfolded through its
+// user-defined processing unfolder (TreeUnfolder), whose cell contains Tree
+// again: activations of the same user unfolder nest.
+type Tree struct {
+	V    int
+	Kids []Tree
+}
+
+type treeCell struct {
+	V    int
+	Kids []Tree
+}
+
+// TreeUnfolder returns the processing unfolder for Tree (a fresh option value).
+func TreeUnfolder() gotype.UnfoldOption {
+	return gotype.Unfolders(func(_ *Tree) (interface{}, func(*Tree, interface{}) error) {
+		cell := &treeCell{}
+		return cell, func(to *Tree, c interface{}) error {
+			tc, ok := c.(*treeCell)
+			if !ok {
+				return fmt.Errorf("tree unfolder: foreign cell %T", c)
+			}
+			to.V, to.Kids = tc.V+1000, tc.Kids
+			return nil
+		}
+	})
+}
+
+// TreeExpected is what unfolding TreeEvents(t) through TreeUnfolder must build.
+func TreeExpected(t Tree) Tree {
+	out := Tree{V: t.V + 1000}
+	if t.Kids != nil {
+		out.Kids = make([]Tree, len(t.Kids))
+		for i, k := range t.Kids {
+			out.Kids[i] = TreeExpected(k)
+		}
+	}
+	return out
+}
+
+// GenTree draws a tree of depth <= 3.
+func GenTree(c *simkit.Choices, depth int) Tree {
+	t := Tree{V: c.N(100)}
+	if depth < 3 {
+		for i, n := 0, c.N(3); i < n; i++ {
+			t.Kids = append(t.Kids, GenTree(c, depth+1))
+		}
+	}
+	return t
+}
+
+// TreeEvents is the event stream of a Tree (it cannot be folded: the library
+// overflows the stack compiling a folder for a self-referential type).
+func TreeEvents(t Tree) []simkit.Ev {
+	evs := []simkit.Ev{{K: simkit.KObjStart, I: -1}, {K: simkit.KKey, S: "v"}, {K: simkit.KInt, I: int64(t.V)}}
+	if t.Kids != nil {
+		evs = append(evs, simkit.Ev{K: simkit.KKey, S: "kids"}, simkit.Ev{K: simkit.KArrStart, I: int64(len(t.Kids))})
+		for _, k := range t.Kids {
+			evs = append(evs, TreeEvents(k)...)
+		}
+		evs = append(evs, simkit.Ev{K: simkit.KArrEnd})
+	}
+	return append(evs, simkit.Ev{K: simkit.KObjEnd})
+}
+
+// TreeEntry is the (non-catalogue) type entry of Tree.
+var TreeEntry = mk("Tree", false, func(c *simkit.Choices) Tree { return GenTree(c, 0) })
+
 // Score is a named integer type for which engines register user-defined
 // unfolders (gotype.Unfolders) in three styles; see UnfolderOpts.
 type Score int
@@ -276,6 +366,13 @@ const NumUnfolderVariants = 4
 // unfolder that re-uses the target as its cell and post-processes it;
 // 3 stateful unfolder (UnfoldState).
 func UnfolderOpts(v int) []gotype.UnfoldOption {
+	if v == 0 {
+		return nil
+	}
+	return append(scoreOpts(v), TreeUnfolder())
+}
+
+func scoreOpts(v int) []gotype.UnfoldOption {
 	switch v {
 	case 1:
 		cell := new(int)
@@ -619,6 +716,27 @@ var Catalogue = []TypeEntry{
 		}
 		return out
 	}),
+	mk("PackedU8", false, func(c *simkit.Choices) PackedU8 {
+		return PackedU8{uint8(c.N(256)), uint8(c.N(256)), uint8(c.N(256)), uint8(c.N(256)), uint8(c.N(256)), uint8(c.N(256)), uint8(c.N(256)), uint8(1 + c.N(255))}
+	}),
+	mk("PackedI8", false, func(c *simkit.Choices) PackedI8 {
+		return PackedI8{int8(c.N(256)), int8(c.N(256)), int8(c.N(256)), int8(c.N(256)), int8(c.N(256)), int8(c.N(256)), int8(c.N(256)), int8(1 + c.N(100))}
+	}),
+	mk("PackedBool", false, func(c *simkit.Choices) PackedBool {
+		return PackedBool{c.Bool(), c.Bool(), c.Bool(), c.Bool(), c.Bool(), c.Bool(), c.Bool(), true}
+	}),
+	mk("PackedU16", false, func(c *simkit.Choices) PackedU16 {
+		return PackedU16{uint16(c.N(65536)), uint16(c.N(65536)), uint16(c.N(65536)), uint16(1 + c.N(65535))}
+	}),
+	mk("PackedI16", false, func(c *simkit.Choices) PackedI16 {
+		return PackedI16{int16(c.N(65536)), int16(c.N(65536)), int16(c.N(65536)), int16(1 + c.N(30000))}
+	}),
+	mk("PackedU32", false, func(c *simkit.Choices) PackedU32 { return PackedU32{uint32(genI(c)), uint32(1 + c.N(1000))} }),
+	mk("PackedI32", false, func(c *simkit.Choices) PackedI32 { return PackedI32{int32(genI(c)), int32(1 + c.N(1000))} }),
+	mk("PackedF32", false, func(c *simkit.Choices) PackedF32 { return PackedF32{float32(c.N(1000)) / 8, float32(1+c.N(1000)) / 4} }),
+	mk("PackedMix", false, func(c *simkit.Choices) PackedMix {
+		return PackedMix{uint16(c.N(65536)), uint16(c.N(65536)), uint8(c.N(256)), int8(c.N(256)), uint16(c.N(65536)), uint32(genI(c)), int16(c.N(65536)), uint16(1 + c.N(65535))}
+	}),
 	mk("Score", false, func(c *simkit.Choices) Score { return Score(c.N(1000)) }),
 	mk("[]Score", false, func(c *simkit.Choices) []Score {
 		return genSlice(c, func(c *simkit.Choices) Score { return Score(c.N(1000)) })
@@ -748,6 +866,7 @@ var families = map[string][]string{
 	"inner":  {"Inner", "Holder", "Nested", "Tagged", "[]*Inner", "Wide", "[]Wide", "OmitAll", "Ptrs"},
 	"named":  {"NamedSlice", "NamedMap", "NamedFields", "[]NamedSlice", "[]int", "map[string]string"},
 	"score":  {"Score", "[]Score", "map[string]Score", "Scored", "int"},
+	"packed": {"PackedU8", "PackedI8", "PackedBool", "PackedU16", "PackedI16", "PackedU32", "PackedI32", "PackedF32", "PackedMix"},
 	"simple": {"Simple", "[]Simple", "map[string]Simple", "*Simple", "Nested", "map[MyStr]Simple", "Wide"},
 	"kv":     {"OrderedKV", "WithKV", "map[string]string", "Strs"},
 	"folder": {"WithFolder", "InlineFolder", "InlineIfc", "InlineMap", "InlineTyped", "map[string]interface{}"},
@@ -755,7 +874,7 @@ var families = map[string][]string{
 	"ifc":    {"interface{}", "[]interface{}", "map[string]interface{}", "[]map[string]interface{}", "Strs", "Tagged"},
 }
 
-var familyNames = []string{"inner", "named", "score", "simple", "kv", "folder", "local", "ifc"}
+var familyNames = []string{"packed", "inner", "named", "score", "simple", "kv", "folder", "local", "ifc"}
 
 // PickRelated draws n types; half of the time all from one family (types
 // that contain each other), else independently.
